@@ -17,7 +17,7 @@ from ..run import pydoctor_run
 
 ID = "C16"
 RULE = ("modules with 2-5 documented objects, each docstring 1-4 blocks of 1-3 physical lines, 0-3 planted problems at known lines, "
-        "x 4 docformats x docstring layouts x vertical offsets {0,1,7}; clean modules (no problem) included. Non-trivial when >=1 "
+        "x 4 docformats x docstring layouts x vertical offsets {0,1,7}; clean modules (no problem) included; an unknown tag may occur several times in a docstring. Non-trivial when >=1 "
         "problem is planted in a block of the docstring other than its first line, or the module is clean; distinct by hash of the "
         "source text and options.")
 ASSUMPTIONS = [
